@@ -319,11 +319,16 @@ fn plonk_cases(thorough: bool) -> Vec<PlonkCase> {
     let mut v = vec![];
     // standard recursion config: nc 2, cap 4, rate 3, ConstantArityBits(4,5), 28 queries, 2 FRI layers
     v.push(PlonkCase { name: "std", config: std.clone(), log_rows: 12, lookups: false, npi: 3 });
-    // one challenge, zero knowledge (hiding), explicit arities, small caps
+    // one challenge, zero knowledge (hiding), binary folding, small caps.  (zk needs a strategy whose final
+    // polynomial does not grow with the degree: with Fixed([..]) `blinding_counts` never reaches its fixed point)
     let mut c = CircuitConfig::standard_recursion_zk_config();
     c.num_challenges = 1;
+    c.fri_config = FriConfig { rate_bits: 3, cap_height: 1, proof_of_work_bits: 6, reduction_strategy: FriReductionStrategy::ConstantArityBits(1, 3), num_query_rounds: 12 };
+    v.push(PlonkCase { name: "nc1-zk-cab13", config: c, log_rows: 8, lookups: false, npi: 2 });
+    // explicit arities
+    let mut c = std.clone();
     c.fri_config = FriConfig { rate_bits: 3, cap_height: 1, proof_of_work_bits: 6, reduction_strategy: FriReductionStrategy::Fixed(vec![1, 2, 1]), num_query_rounds: 12 };
-    v.push(PlonkCase { name: "nc1-zk-fixed", config: c, log_rows: 8, lookups: false, npi: 2 });
+    v.push(PlonkCase { name: "fixed-121", config: c, log_rows: 8, lookups: false, npi: 2 });
     // three challenges, lookups, MinSize
     let mut c = std.clone();
     c.num_challenges = 3;
@@ -772,10 +777,15 @@ fn cases(args: &[String], only_cfg: bool) -> anyhow::Result<()> {
         Some(p) => std::fs::read_to_string(p)?.lines().filter(|l| !l.trim().is_empty()).map(serde_json::from_str).collect::<Result<_, _>>()?,
         None => vec![],
     };
+    let only = opt(args, "--only");
     for rep in 0..reps as u64 {
         for case in plonk_cases(thorough) {
+            if only.is_some() && only != Some(case.name) {
+                continue;
+            }
+            eprintln!("[c04] plonk case {}", case.name);
             emit(&plonk_one::<PC>(&case, "poseidon", &programs, only_cfg, rep)?);
-            if case.name == "std" || case.name == "nc3-lookup-minsize" || (thorough && case.name == "nc1-zk-fixed") {
+            if case.name == "std" || case.name == "nc3-lookup-minsize" || (thorough && case.name == "nc1-zk-cab13") {
                 emit(&plonk_one::<KC>(&case, "keccak", &programs, only_cfg, rep)?);
             }
             if only_cfg && rep > 0 {
@@ -783,6 +793,10 @@ fn cases(args: &[String], only_cfg: bool) -> anyhow::Result<()> {
             }
         }
         for case in stark_cases(thorough) {
+            if only.is_some() && only != Some(case.name) {
+                continue;
+            }
+            eprintln!("[c04] stark case {}", case.name);
             emit(&stark_one(&case, only_cfg, rep)?);
         }
         if only_cfg {
